@@ -363,7 +363,6 @@ def write(
     import json as json_module
     import sys
 
-    from octave_mcp.core.ast_nodes import Assignment
     from octave_mcp.core.emitter import emit
     from octave_mcp.core.file_ops import atomic_write_octave, validate_octave_path
     from octave_mcp.core.parser import parse
@@ -421,22 +420,18 @@ def write(
             # Apply changes (changes is guaranteed to be non-None in this branch)
             assert changes is not None
             changes_dict = json_module.loads(changes)
-            for key, value in changes_dict.items():
-                if key.startswith("META."):
-                    field_name = key[5:]
-                    doc.meta[field_name] = value
-                elif key == "META" and isinstance(value, dict):
-                    doc.meta = value.copy()
-                else:
-                    # Update or add field in sections
-                    found = False
-                    for section in doc.sections:
-                        if isinstance(section, Assignment) and section.key == key:
-                            section.value = value
-                            found = True
-                            break
-                    if not found:
-                        doc.sections.append(Assignment(key=key, value=value))
+            if not isinstance(changes_dict, dict):
+                click.echo("Error: --changes must be a JSON object", err=True)
+                raise SystemExit(1)
+
+            # Same tri-state semantics as the MCP octave_write tool ("Matches MCP octave_write
+            # tool"): {"$op": "DELETE"} removes a key, null writes KEY::null, META / META.X merge
+            # into META, and Python lists/dicts are wrapped into AST values. The CLI's private copy
+            # of this loop wrote str(dict)/str(list) into the file (unreadable output), replaced
+            # META wholesale and had no DELETE.
+            from octave_mcp.mcp.write import WriteTool
+
+            doc = WriteTool()._apply_changes(doc, changes_dict)
 
             canonical_content = emit(doc)
 
